@@ -18,6 +18,64 @@
 #include "vp.h"
 #include "dsa/ares_slist.c"
 
+/* typed allocation: under CBMC malloc(sizeof(T)) yields an object of type T
+ * (field-wise tracking keeps stored pointers - above all the comparator -
+ * constant); through the size-splitting allocator it would be a byte array */
+#ifdef VP_NATIVE
+#  define VP_TALLOC(T) ((T *)vp_malloc(sizeof(T)))
+#  define VP_TALLOCN(T, n) ((T *)vp_malloc(sizeof(T) * (n)))
+#else
+#  include <stdlib.h>
+#  define VP_TALLOC(T) (vp_alloc_live++, (T *)malloc(sizeof(T)))
+#  define VP_TALLOCN(T, n)                                                                                   \
+    (vp_alloc_live++, (T *)((n) == 1   ? malloc(sizeof(T) * 1)                                                 \
+                            : (n) == 2 ? malloc(sizeof(T) * 2)                                                 \
+                            : (n) == 3 ? malloc(sizeof(T) * 3)                                                 \
+                            : (n) == 4 ? malloc(sizeof(T) * 4)                                                 \
+                                       : malloc(sizeof(T) * 5)))
+#endif
+
+/* Allocator entry used by the real code under CBMC: same ledger and failure
+ * injection as valloc.c's vp_malloc, but objects are typed by their size (the
+ * skip list only ever allocates node structs and arrays of node pointers). */
+#ifndef VP_NATIVE
+static void *sl_malloc(size_t n)
+{
+  void *p = NULL;
+  vp_alloc_calls++;
+  if (vp_alloc_fail_at != 0 && vp_alloc_calls == vp_alloc_fail_at)
+    return NULL;
+  if (n == sizeof(ares_slist_node_t))
+    p = malloc(sizeof(ares_slist_node_t));
+  else if (n == sizeof(ares_slist_t))
+    p = malloc(sizeof(ares_slist_t));
+  else if (n == 1 * sizeof(ares_slist_node_t *))
+    p = malloc(sizeof(ares_slist_node_t *) * 1);
+  else if (n == 2 * sizeof(ares_slist_node_t *))
+    p = malloc(sizeof(ares_slist_node_t *) * 2);
+  else if (n == 3 * sizeof(ares_slist_node_t *))
+    p = malloc(sizeof(ares_slist_node_t *) * 3);
+  else if (n == 4 * sizeof(ares_slist_node_t *))
+    p = malloc(sizeof(ares_slist_node_t *) * 4);
+  else
+    VP_BOUND(0, "allocation size not expected from the skip list at this bound");
+  __CPROVER_assume(p != NULL);
+  vp_alloc_live++;
+  return p;
+}
+int ares_library_init_mem(int flags, void *(*amalloc)(size_t size), void (*afree)(void *ptr),
+                          void *(*arealloc)(void *ptr, size_t size));
+#endif
+
+static void install_allocator(void)
+{
+#ifdef VP_NATIVE
+  vp_alloc_install();
+#else
+  ares_library_init_mem(0, sl_malloc, vp_free, vp_realloc);
+#endif
+}
+
 #ifndef N
 #  define N 3
 #endif
@@ -51,11 +109,23 @@ static int cmp(const void *a, const void *b)
   return (x < y) ? -1 : (x > y) ? 1 : 0;
 }
 
+static unsigned newlv; /* 0 = arbitrary random bytes */
+
 /* RNG boundary stub: any byte string */
 void ares_rand_bytes(ares_rand_state *state, unsigned char *buf, size_t len)
 {
   (void)state;
-  vp_bytes(buf, len);
+  if (newlv != 0) {
+    /* concrete coin flips: newlv-1 heads then a tail.  The level of the new
+     * node is a SHAPE parameter (all of 1..LL are enumerated); the coin-flip /
+     * level-choice code itself is checked on ARBITRARY rand state by OP 10. */
+    size_t i;
+    for (i = 0; i < len; i++)
+      buf[i] = 0;
+    buf[0] = (unsigned char)((1u << (newlv - 1)) - 1u);
+  } else {
+    vp_bytes(buf, len);
+  }
 }
 
 static ares_slist_t      *sl;
@@ -68,12 +138,12 @@ static int                dummy_rand;
 static void arbitrary_slist(void)
 {
   size_t k, lvl;
-  sl             = vp_malloc(sizeof(*sl));
+  sl             = VP_TALLOC(ares_slist_t);
   sl->rand_state = (ares_rand_state *)&dummy_rand;
   vp_bytes(sl->rand_data, sizeof(sl->rand_data));
-  sl->rand_bits = vp_range(0, 64);
+  sl->rand_bits = (newlv != 0) ? 0 : vp_range(0, 64);
   sl->levels    = LL;
-  sl->head      = vp_malloc(sizeof(*sl->head) * LL);
+  sl->head      = VP_TALLOCN(ares_slist_node_t *, LL);
   sl->tail      = NULL;
   sl->cmp       = cmp;
   sl->destruct  = vp_bool() ? dtor : NULL;
@@ -85,20 +155,16 @@ static void arbitrary_slist(void)
   for (k = 0; k + 1 < N; k++)
     VP_ASSUME(items[k].key <= items[k + 1].key);
   for (k = 0; k < N; k++) {
-#ifdef LVS
     {
       static const size_t lvs[] = { LVS, 1, 1, 1 };
       lv[k]                     = lvs[k];
     }
-#else
-    lv[k] = vp_range(1, LL);
-#endif
-    nd[k]         = vp_malloc(sizeof(*nd[k]));
+    nd[k]         = VP_TALLOC(ares_slist_node_t);
     nd[k]->data   = &items[k];
     nd[k]->levels = lv[k];
     nd[k]->parent = sl;
-    nd[k]->next   = vp_malloc(sizeof(*nd[k]->next) * lv[k]);
-    nd[k]->prev   = vp_malloc(sizeof(*nd[k]->prev) * lv[k]);
+    nd[k]->next   = VP_TALLOCN(ares_slist_node_t *, lv[k]);
+    nd[k]->prev   = VP_TALLOCN(ares_slist_node_t *, lv[k]);
     mdl[k]        = &items[k];
   }
   mcnt = N;
@@ -193,7 +259,7 @@ static void check_slist(const item_t *touched)
   /* untouched pre-state nodes keep their node object and level */
   for (i = 0; i < mcnt; i++) {
     size_t k = (size_t)((const item_t *)ares_slist_node_val(seq[i]) - items);
-    if (k < N) {
+    if (k <= N) {
       VP_ASSERT(seq[i] == nd[k], "element still lives in its original node");
       VP_ASSERT(seq[i]->levels == lv[k], "node level unchanged");
     }
@@ -235,22 +301,32 @@ static ares_slist_node_t *m_find_first(int key)
   return NULL;
 }
 
-void harness(void)
+/* ONE operation (op) on a fresh arbitrary state of the job's shape; j = node
+ * acted upon, nlv = level the coin flips give the inserted node (0: arbitrary
+ * random bytes). */
+static void one_case(unsigned op, size_t j, unsigned nlv)
 {
-  unsigned           op;
-  size_t             j, k;
+  size_t             k;
   ares_slist_node_t *r;
   const item_t      *touched = NULL;
   int                alive   = 1;
 
-  vp_alloc_install();
-  arbitrary_slist();
-#ifdef OP
-  op = OP;
-#else
-  op = vp_u8();
-#endif
-  j = vp_range(0, 3);
+  newlv = nlv;
+  for (k = 0; k < NI; k++) {
+    destroyed[k]      = 0;
+    want_destroyed[k] = 0;
+  }
+  for (k = 0; k <= N; k++)
+    nd[k] = NULL;
+  if (op == 11) { /* anchor: the state made by the real constructor is in the invariant */
+    sl   = ares_slist_create((ares_rand_state *)&dummy_rand, cmp, dtor);
+    mcnt = 0;
+    VP_ASSERT(sl != NULL, "create succeeds");
+    VP_ASSERT(sl->rand_bits == 0 && sl->cnt == 0 && sl->tail == NULL && sl->cmp == cmp && sl->destruct == dtor,
+              "created list is empty");
+  } else {
+    arbitrary_slist();
+  }
 
   switch (op) {
     case 0: /* insert: any key, any coin flips */
@@ -258,7 +334,9 @@ void harness(void)
       VP_ASSERT(r != NULL, "insert succeeds (allocator does not fail here)");
       VP_ASSERT(ares_slist_node_val(r) == &items[NEWI] && ares_slist_node_parent(r) == sl, "insert returns the new node");
       m_insert_sorted_any(&items[NEWI]);
-      touched = &items[NEWI];
+      touched  = &items[NEWI];
+      nd[NEWI] = r;
+      lv[NEWI] = r->levels;
       if (r->levels > 1)
         VP_WITNESS("multi-level insert");
       break;
@@ -274,26 +352,29 @@ void harness(void)
     }
     case 2: { /* claim */
       void *v;
-      VP_ASSUME(j < N);
+      if (j >= N) return;
       v = ares_slist_node_claim(nd[j]);
       VP_ASSERT(v == &items[j], "claim returns the node's data");
       m_remove(&items[j]);
+      nd[j] = NULL;
       break;
     }
     case 3: /* node_destroy */
-      VP_ASSUME(j < N);
+      if (j >= N) return;
       if (sl->destruct != NULL)
         want_destroyed[j]++;
       ares_slist_node_destroy(nd[j]);
       m_remove(&items[j]);
+      nd[j] = NULL;
       break;
     case 4: /* reinsert after the key changed to anything */
-      VP_ASSUME(j < N);
+      if (j >= N) return;
       items[j].key = (int)vp_range(0, 9);
       ares_slist_node_reinsert(nd[j]);
       touched = &items[j];
       break;
-    case 5: /* observers only: the constructed state passes the full check */
+    case 5:  /* observers only: the constructed state passes the full check */
+    case 11: /* anchor (created above) */
       break;
     case 6: /* destroy */
       if (sl->destruct != NULL)
@@ -327,8 +408,32 @@ void harness(void)
       VP_ASSERT(ares_slist_create((ares_rand_state *)&dummy_rand, NULL, dtor) == NULL, "create needs a comparator");
       break;
     case 9: /* replace_destructor */
-      ares_slist_replace_destructor(sl, vp_bool() ? dtor : NULL);
+    {
+      ares_slist_destructor_t d = vp_bool() ? dtor : NULL;
+      ares_slist_replace_destructor(sl, d);
+      VP_ASSERT(sl->destruct == d, "destructor replaced");
       break;
+    }
+    case 10: { /* coin flips / level choice on ARBITRARY rand state */
+      size_t        bits0 = sl->rand_bits;
+      unsigned char data0[8];
+      size_t        lvl;
+      memcpy(data0, sl->rand_data, 8);
+      lvl = ares_slist_calc_level(sl);
+      VP_ASSERT(lvl >= 1 && lvl <= LL, "chosen level within 1..max_level");
+      VP_ASSERT(sl->rand_bits <= 64, "rand_bits stays within the 64 cached bits");
+      /* exactly `lvl` flips are made; each consumes one cached bit, a refill happens at 0 */
+      VP_ASSERT(sl->rand_bits == (bits0 >= lvl ? bits0 - lvl : 64 - (lvl - bits0)), "one cached bit consumed per flip");
+      if (bits0 >= LL) { /* no refill in between: the flips are the next cached bits, in order */
+        size_t t, base = 64 - bits0;
+        for (t = 0; t + 1 < lvl; t++)
+          VP_ASSERT(data0[(base + t) / 8] & (1 << ((base + t) % 8)), "level counts the leading heads of the cached bits");
+        if (lvl < LL)
+          VP_ASSERT(!(data0[(base + lvl - 1) / 8] & (1 << ((base + lvl - 1) % 8))), "level stops at the first tail");
+        VP_WITNESS("flips from cache");
+      }
+      break;
+    }
     default:
       VP_ASSUME(0);
   }
@@ -338,11 +443,60 @@ void harness(void)
   check_destroyed();
   VP_WITNESS("end");
 
+  /* Tear down by hand through the harness's own (constant) pointers: running
+   * the real ares_slist_destroy on the symbolic post-state does not close
+   * (it is checked as an operation of its own, OP 6).  The allocator ledger
+   * shows that nothing else is left allocated. */
   if (alive) {
-    if (sl->destruct != NULL)
-      for (k = 0; k < mcnt; k++)
-        want_destroyed[mdl[k] - items]++;
-    ares_slist_destroy(sl);
+    for (k = 0; k <= N; k++) {
+      if (nd[k] != NULL) {
+        vp_free(nd[k]->next);
+        vp_free(nd[k]->prev);
+        vp_free(nd[k]);
+      }
+    }
+    vp_free(sl->head);
+    vp_free(sl);
   }
-  check_destroyed();
+  VP_ASSERT(vp_alloc_live == 0, "nothing leaked, nothing freed twice (allocator ledger)");
+}
+
+#ifndef GRP
+#  error "slist_step.c needs -DGRP=n"
+#endif
+
+/* GRP 0: insert (every level 1..LL for the new node) and insert under allocation failure
+ * GRP 1: node operations on every node j: claim, node_destroy, reinsert after any key change
+ * GRP 2: list operations: find, observers, destroy, replace_destructor
+ * GRP 3: (N=0 job only) rejected arguments, level choice on arbitrary rand state, create anchor */
+void harness(void)
+{
+  size_t   j;
+  unsigned l;
+  install_allocator();
+#if GRP == 0
+#  ifdef NEWLV
+  one_case(OP, 0, NEWLV);
+#  else
+  for (l = 1; l <= LL; l++)
+    one_case(OP, 0, l);
+#  endif
+#elif GRP == 1
+  for (j = 0; j < N; j++) {
+    one_case(2, j, 0);
+    one_case(3, j, 0);
+    one_case(4, j, 0);
+  }
+#elif GRP == 2
+  one_case(1, 0, 0);
+  one_case(5, 0, 0);
+  one_case(6, 0, 0);
+  one_case(9, 0, 0);
+#else
+  one_case(8, 0, 0);
+  one_case(10, 0, 0);
+  one_case(11, 0, 0);
+#endif
+  (void)j;
+  (void)l;
 }
